@@ -213,6 +213,9 @@ class SimDisk:
 
     # ---- write side
     def _wrapped_write(self, kind, orig, writer, payload):
+        if self.in_wrapped_write:
+            # FileWriter.write called from inside FileWriter.cwrite (or vice versa): part of the same write call
+            return orig(writer, payload)
         k, f = self.next_call("w")
         fo = writer.file_obj
         name = self.ctx.rel(fo.name)
